@@ -27,10 +27,10 @@ T = {
          "Decides: (scalar) the log-det of every X_and_log_det is rank-0 in a rank domain; (neg) ld(inverse_and_log_det)(y) == -ld(transform_and_log_det)(x := inverse(y)) "
          "as a term identity for leaves (exact in the rational fragment), by mirror for delegating classes, at the computed x for MAF/BNAF, with the two named exceptions "
          "(LeakyTanh y-space predicate, planar skeleton with the constrained u); (mask) value and log-det select their branch with the same predicate; (deriv) for the elementwise leaves, the spline, the triangular affine map, planar and the pure reorderings, the closed-form log-det equals sum log|d transform/dx| of the map actually computed, by symbolic differentiation / exact rational identity; (bnaf) the block network's log-det, unrolled for depth 0..3, is the log-space matrix product Lin(d).Diag(d-1)...Diag(0).Lin(0) with each activation log-gradient taken at the pre-activation of the value path (chain rule, non-commutative); (triangular) the last MADE layer is strict for depth 0..3. Does NOT decide the numerical equality with the autodiff Jacobian for data-dependent compositions (follows by induction from the clauses above) nor MAF/BNAF/coupling Jacobian structure (C09).", "3 C02 and 8.3"),
- "C03": ("signed-provenance / reference-term comparison of the three cores + loop-summary rule for merge_transforms",
+ "C03": ("signed-provenance / reference-term comparison of the three cores + partial evaluation of merge_transforms / merge_chains on nesting shapes",
          "Decides: the three cores of AbstractTransformed equal the change-of-variables wiring (inverse log-det added, forward subtracted, base density at the inverse image, condition to both, key once, one bijection/base pair); "
          "the default joint path; merge_transforms collects one bijection per visited level outermost-first, reverses once, merges on the innermost base; every factory returns Transformed(base, Invert(Scan(L)) if invert else Scan(L)); "
-         "every bijection class a factory can place on the data path satisfies value/mirror agreement; Chain.merge_chains keeps the order (loop, LIFO-stack and recursive forms); the public log_prob is the vectorised core of the unwrapped distribution at x cast to float and only maps NaN to -inf. Does NOT decide the numerical equalities (they follow given C01/C02 of the children).", "3 C03"),
+         "every bijection class a factory can place on the data path satisfies value/mirror agreement; Chain.merge_chains and merge_transforms keep the order (partial evaluation of the method on a grid of nesting shapes; structural forms as fallback); the public log_prob is the vectorised core of the unwrapped distribution at x cast to float and only maps NaN to -inf. Does NOT decide the numerical equalities (they follow given C01/C02 of the children).", "3 C03"),
  "C04": ("interval abstract domain (bounded-image proofs) over bijections on flow data paths + structural tail rules",
          "Decides only the surjectivity-typing clause: no bijection placed on a flow's data path (factory layers, default BNAF activation) has a provably bounded image or domain in the interval domain; spline / LeakyTanh tails are the identity / tangent continuation; planar u-constraint keeps w.u > -1; "
          "sampler and density share one bijection and base and the flow wrapper bijections are mirror-consistent; the spline's only inexact-array pytree leaves are its raw vectors (interval ends static, so conditioners cannot move the knot span away from the tails); every occurrence of the BNAF raw weight sits under a Where(block_tril_mask, ., 0) wrapper (triangular for every parameter value); fields annotated as Python scalars hold Python values, not trainable array leaves (LeakyTanh's tail constants); Affine / Scale store their parameters broadcast to the declared shape. Does NOT decide that exp(log_prob) integrates to one nor sampler/density goodness of fit (global numerical quantities: not applicable to static analysis).", "3 C04"),
@@ -43,7 +43,7 @@ T = {
  "C07": ("formula conformance: canonical-term equality with reference snippets, exact in the rational fragment",
          "Decides: transform of each elementary bijection equals the documented map; LeakyTanh tangent-line constructor identities; TriangularAffine triangle/solver polarity; Permute forward/inverse index provenance; spline in-bounds branches equal eq. 4/5/6-8 of Durkan et al. with identity tails, located in the right knot table under the interval mask; bin index in range. "
          "Does NOT decide values at concrete inputs or that jnp primitives compute their namesakes.", "3 C07"),
- "C08": ("mirror/definition term comparison + axis-sign abstract domain + loop-summary order rules",
+ "C08": ("mirror/definition term comparison + axis-sign abstract domain + partial evaluation of merge_chains / merge_transforms / merge_cond_shapes on finite shape grids",
          "Decides: each combinator's transform equals its definition over the children's methods, inverse pair is its mirror, value agreement; a possibly-negative axis is normalised (with the right modulus) before being a tuple slice bound; shape/cond_shape algebra equals the jnp.concatenate/stack/vmap semantics; "
          "indexing/iteration/merge_chains/merge_transforms preserve order; merge_cond_shapes returns None iff all entries are None (no truthiness on shapes); declared shapes / conditioner sizes of Coupling, MaskedAutoregressive, Planar and the Vmap constructor with its axis helpers equal their documented forms. Does NOT decide equality with a reference interpreter on generated trees.", "3 C08"),
  "C09": ("wrapper zero/sign-pattern domain + constant-propagating partial evaluation over the static configuration grid",
@@ -67,9 +67,9 @@ T = {
  "C15": ("reaching-definition dataflow on a hand-built CFG + train/val taint + PRNG-key typestate",
          "Decides: co-permutation with one key and complementary slices of one bound (partition); per-epoch shuffles with fresh keys rebuilt only from themselves; prefix batching with one batch size and strict zip (whichever of get_batches and its helper computes the layout, under get_batches' equal-length guard); no validation-derived value reaches step; every per-batch step/loss call gets a key that changes with the iteration; caller/callee argument order. "
          "Nothing is run; the row multiset is inferred under the jr.permutation/reshape/zip contracts.", "3 C15"),
- "C16": ("version (reaching-definition) analysis of the parameters the compared loss was evaluated at",
+ "C16": ("partial evaluation of both training loops on scripted loss orderings (finite grid of order types) + version (reaching-definition) analysis of the parameters the compared loss was evaluated at",
          "Decides: one train and one val record per epoch dominating the stopping test; the only break is guarded by count_fruitless(val) > max_patience in the not-best branch; best parameters are the version the compared loss was evaluated at (through the summary of step), the compared value is the minimum of the whole record; return selection (a private NamedTuple / dataclass holding the loop state is replaced by one local per field first); max_patience / max_epochs / steps / return_best reach the loop exactly as passed. "
-         "Does NOT decide behaviour for NaN losses or ties beyond first minimum.", "3 C16"),
+         "Decided first by partial evaluation of both loops (the checker's evaluator on scripted stand-ins) on every strict ordering of up to 5 (thorough: 6) losses x max_patience x return_best; count_fruitless on all orderings up to length 5 (7). Does NOT decide behaviour for NaN losses, ties, or histories longer than the bound.", "3 C16"),
  "C17": ("reference-estimator term comparison + stability lint",
          "Decides: each loss's __call__ equals its defining estimator (sign, reduction, forwarded arguments, unwrap / stop_gradient placement, per-sample target, key and sample shape shared by both ELBO branches), contrastive indices drawn without replacement from all other rows with one key per row, no log(softmax) normalisation; the loss classes' equality (they are static arguments of filter_jit) distinguishes every attribute __call__ reads. "
          "Does NOT decide numerical agreement with a NumPy reference nor the STL gradient identity beyond stop_gradient placement.", "3 C17"),
